@@ -82,6 +82,13 @@ def _convertible(v, dtype):
     return True
 
 
+def _loosely_equal(a, b):
+    try:
+        return bool(a == b)
+    except Exception:
+        return False
+
+
 def expected(root):
     D, S, P = tree._kinds()
     must, may, groups = set(), set(), []
@@ -136,6 +143,8 @@ def expected(root):
                         may.add((id(o), DEPENDENCY, WARN))
                     elif any(str(v) == str(dv) for v in tvals):
                         may.add((id(o), DEPENDENCY, WARN))      # equal only after text conversion
+                    elif any(_loosely_equal(v, dv) for v in tvals):
+                        may.add((id(o), DEPENDENCY, WARN))      # equal as numbers, of different type (5.0 and 5)
                     else:
                         must.add((id(o), DEPENDENCY, WARN))
     # --- sibling clashes
